@@ -315,7 +315,7 @@ theorem quiet_manageSrcsRm (m stop) : Quiet (fun s => manageSrcsRm s m stop) := 
   · rename_i md _
     by_cases hs : stop
     · simp only [hs, if_true]
-      have q1 : Quiet (fun s => if md.pipe.isSome then (flushDestroy s m).emit (.close "pipe-r") else s) :=
+      have q1 : Quiet (fun s => if md.pipe.isSome then (flushDestroy s m).emit (.close .pipeR) else s) :=
         Quiet.ite _ (Quiet.comp (quiet_emit _) (quiet_flushDestroy m)) Quiet.id
       have q2 := Quiet.comp (quiet_updMod m (fun md => { md with pipePolled := false }) (fun md => rfl)) q1
       have q3 := Quiet.foldl (fun s i => removeSrc s m i) (fun i => quiet_removeSrc m i) (sortSrcs s md.srcs)
@@ -343,7 +343,7 @@ theorem quiet_resetModule (m) : Quiet (fun s => resetModule s m) := by
   split
   · exact ⟨_, Quiet.id, rfl⟩
   · rename_i md _
-    have q1 : Quiet (fun s => if md.pipe.isSome then s.emit (.close "pipe-w") else s) :=
+    have q1 : Quiet (fun s => if md.pipe.isSome then s.emit (.close .pipeW) else s) :=
       Quiet.ite _ (quiet_emit _) Quiet.id
     have q2 := Quiet.foldl (fun s i => removeSrc s m i) (fun i => quiet_removeSrc m i) md.subs
     have q3 := quiet_destroyEvts md.stash []
